@@ -15,12 +15,17 @@ def run_one(m, with_tests):
     d = tempfile.mkdtemp(prefix='ee-mut-')
     try:
         dst = os.path.join(d, 'repo')
-        shutil.copytree(REPO, dst, ignore=shutil.ignore_patterns('target', '.git'))
+        xenv = {}
         if m.get('base'):
             # an edit relative to a stored behaviour-preserving refactoring / feature (an idiom /repo does not use today)
-            pp = subprocess.run(['patch', '-p1', '-s', '--no-backup-if-mismatch', '-i', os.path.join(VERIF, 'refactors', m['base'], 'patch.diff')], cwd=dst, stdout=subprocess.PIPE, stderr=subprocess.STDOUT, text=True)
-            if pp.returncode != 0:
+            sys.path.insert(0, HERE)
+            import seeded
+            shutil.rmtree(d, ignore_errors=True)
+            d, dst, xenv, okp = seeded.tree_with(os.path.join(VERIF, 'refactors', m['base'], 'patch.diff'))
+            if not okp:
                 return m['name'], 'EDIT-FAILED', 'base patch %s does not apply' % m['base'], {}
+        else:
+            shutil.copytree(REPO, dst, ignore=shutil.ignore_patterns('target', '.git'))
         for e in m['edits']:
             p = os.path.join(dst, e['file'])
             t = open(p).read()
@@ -35,7 +40,7 @@ def run_one(m, with_tests):
             tests = (p.returncode == 0)
         res = {}
         for pid in m['expect']:
-            env = dict(os.environ, VERIF_REPO=dst, VERIF_NO_EVIDENCE='1')
+            env = dict(os.environ, VERIF_REPO=dst, VERIF_NO_EVIDENCE='1', **xenv)
             p = subprocess.run([os.path.join(VERIF, 'check'), pid, m.get('tier', 'quick')], env=env, stdout=subprocess.PIPE, stderr=subprocess.STDOUT, text=True)
             viol = [l for l in p.stdout.splitlines() if l.startswith('VIOLATION')]
             res[pid] = (p.returncode, len(viol), p.stdout)
